@@ -162,3 +162,274 @@ def program_trace(tid, cfg, ops, **kw):
 def path_ops(path):
     """TLC path (list of step records) -> [(act, args)] without the closing 'end'."""
     return [(s["act"], s["args"]) for s in path if s["act"] != "end"]
+
+
+# ---------------------------------------------------------------------------------------------
+# C03: two-request keep-alive scenario
+
+def ka_request1(row):
+    lines = ["%s / HTTP/%s" % (row["method"], row["version"]), "Host: x"]
+    if row["conn"] != "absent":
+        lines.append("Connection: " + row["conn"])
+    body = b""
+    if row["reqbody"] == "cl":
+        lines.append("Content-Length: 4")
+        body = b"data"
+    elif row["reqbody"] == "chunked":
+        lines.append("Transfer-Encoding: chunked")
+        body = b"4\r\ndata\r\n0\r\n\r\n"
+    return ("\r\n".join(lines) + "\r\n\r\n").encode("latin1"), body
+
+
+REQ2 = b"GET /2 HTTP/1.1\r\nHost: x\r\n\r\n"
+
+
+def ka_respond(h, row):
+    """Response 1 in the configured style (status, body 'one' in one or two pieces)."""
+    if row["rstatus"] != 200:
+        h.set_status(row["rstatus"])
+    nobody = row["rstatus"] == 204
+    style = row["style"]
+    if style == "buffered":
+        if not nobody:
+            h.write(b"one")
+        h.finish()
+        return
+    if style == "flushed_cl":
+        h.set_header("Content-Length", "3")
+    if not nobody:
+        h.write(b"o")
+    h.flush()
+    if not nobody:
+        h.write(b"ne")
+    h.finish()
+
+
+def ka_exchange(row, schedule="stepwise", streaming=False, cuts=None):
+    """Run the scenario on the real server.  schedule: 'stepwise' (request 1, observe, request 2,
+    observe) or 'pipelined' (everything in one piece, one observation).
+    Returns the list of trace events."""
+    from tornado import web
+    quiet_logs()
+
+    class Plain(web.RequestHandler):
+        def get(self):
+            ka_respond(self, row)
+
+        head = post = get
+
+    @web.stream_request_body
+    class Early(web.RequestHandler):
+        def prepare(self):
+            if row["early"]:
+                ka_respond(self, row)
+
+        def data_received(self, chunk):
+            pass
+
+        def post(self):
+            if not row["early"]:
+                ka_respond(self, row)
+
+        get = head = post
+
+    class Two(web.RequestHandler):
+        def get(self):
+            self.write(b"two")
+
+    first = Early if (row["early"] or streaming) else Plain
+    env = Env()
+    ev = []
+    try:
+        app = web.Application([("/", first), ("/2", Two)])
+        _, srv = make_app_server(env, app=app, no_keep_alive=bool(row["nka"]))
+        conn = ServerConn(env, srv)
+        head, body = ka_request1(row)
+        if schedule == "pipelined":
+            data = head + body + REQ2
+            for c in (cut_at(data, cuts) if cuts else [data]):
+                conn.send(c)
+            env.settle()
+            ev.append({"a": "respond1", "args": [], "obs": {}})
+            ev.append({"a": "respond2", "args": [], "obs": {}})
+            ev.append({"a": "observe2", "args": [], "obs": {"out": list(conn.received()), "eof": bool(conn.closed())}})
+            return ev
+        conn.send(head)
+        env.settle()
+        if body:
+            conn.send(body)
+            env.settle()
+        ev.append({"a": "respond1", "args": [], "obs": {}})
+        ev.append({"a": "observe1", "args": [], "obs": {"out": list(conn.received()), "eof": bool(conn.closed())}})
+        conn.send(REQ2)
+        env.settle()
+        ev.append({"a": "respond2", "args": [], "obs": {}})
+        ev.append({"a": "observe2", "args": [], "obs": {"out": list(conn.received()), "eof": bool(conn.closed())}})
+        return ev
+    finally:
+        env.close()
+
+
+def cut_at(data, points):
+    out, last = [], 0
+    for p in sorted(set(points)):
+        if last < p < len(data):
+            out.append(data[last:p])
+            last = p
+    out.append(data[last:])
+    return out
+
+
+def ka_trace(tid, row, **kw):
+    return {"id": tid, "cfg": row, "ev": ka_exchange(row, **kw)}
+
+
+# ---------------------------------------------------------------------------------------------
+# C07: header-producing API paths fed with application strings
+
+INJ_BENIGN = [111, 107]          # "ok"
+
+
+def inj_call(h, api, x):
+    """Make the call of API path `api` with the application string x (list of code points)."""
+    s = "".join(map(chr, x))
+    if api == "set_header_str":
+        h.set_header("X-T", s)
+    elif api == "set_header_bytes":
+        h.set_header("X-T", bytes(x))
+    elif api == "add_header_value":
+        h.add_header("X-T", s)
+    elif api == "set_header_name":
+        h.set_header(s, "v")
+    elif api == "add_header_name":
+        h.add_header(s, "v")
+    elif api == "status_reason":
+        h.set_status(200, reason=s)
+    elif api == "cookie_name":
+        h.set_cookie(s, "v")
+    elif api == "cookie_value":
+        h.set_cookie("n", s)
+    elif api == "cookie_domain":
+        h.set_cookie("n", "v", domain=s)
+    elif api == "cookie_path":
+        h.set_cookie("n", "v", path=s)
+    elif api == "cookie_samesite":
+        h.set_cookie("n", "v", samesite=s)
+    elif api == "redirect":
+        h.redirect(s)
+    else:
+        raise ValueError("unknown api %r" % (api,))
+
+
+def inj_run(api, x, flush_first=False):
+    """-> (raised, err, out, eof): serve one GET whose handler makes the call and finishes."""
+    from tornado import web
+    quiet_logs()
+    res = {"raised": False, "err": "none"}
+
+    class H(web.RequestHandler):
+        def get(self):
+            try:
+                inj_call(self, api, x)
+                if api != "redirect":
+                    self.write(b"body")
+                    if flush_first:
+                        self.flush()
+                    self.finish()
+            except Exception as e:
+                res["raised"] = True
+                res["err"] = type(e).__name__
+                raise
+
+    env = Env()
+    try:
+        app = web.Application([("/", H)])
+        _, srv = make_app_server(env, app=app)
+        conn = ServerConn(env, srv)
+        conn.send(b"GET / HTTP/1.1\r\nHost: x\r\n\r\n")
+        env.settle()
+        return res["raised"], res["err"], conn.received(), conn.closed()
+    finally:
+        env.close()
+
+
+_BASELINE = {}
+
+
+def inj_trace(tid, api, x, flush_first=False):
+    key = (api, flush_first)
+    if key not in _BASELINE:
+        r0 = inj_run(api, INJ_BENIGN if api not in ("set_header_name", "add_header_name") else [88, 45, 79, 107], flush_first)
+        if r0[0]:
+            raise RuntimeError("baseline call of %s raised %s" % (api, r0[1]))
+        _BASELINE[key] = list(r0[2])
+    raised, err, out, eof = inj_run(api, x, flush_first)
+    return {"id": tid, "cfg": {"api": api, "x": list(x)},
+            "ev": [{"a": "call", "args": [], "obs": {"raised": raised, "err": err}},
+                   {"a": "response", "args": [], "obs": {"raised": raised, "out": list(out), "eof": bool(eof),
+                                                        "out0": _BASELINE[key]}}]}
+
+
+# ---------------------------------------------------------------------------------------------
+# C29: compress_response=True
+
+def rle(data):
+    """bytes -> [[n, b], ...] run-length form used by Gzip.tla."""
+    out = []
+    for b in data:
+        if out and out[-1][1] == b:
+            out[-1][0] += 1
+        else:
+            out.append([1, b])
+    return out
+
+
+def unrle(runs):
+    return b"".join(bytes([b]) * n for n, b in runs)
+
+
+def gunzip_strict(body):
+    """Opaque codec side: decode `body` as exactly one complete gzip member (stdlib zlib)."""
+    import zlib
+    try:
+        d = zlib.decompressobj(16 + zlib.MAX_WBITS)
+        dec = d.decompress(body)
+        ok = d.eof and d.unused_data == b"" and d.unconsumed_tail == b""
+        return bool(ok), dec
+    except zlib.error:
+        return False, b""
+
+
+def gz_trace(tid, cfg, ops, write_plan=None):
+    """ops = [(act, [runs]) | ('flush', [])]; executes on an app with compress_response=True."""
+    from .httpsim import split_responses
+
+    def prelude(h):
+        if cfg["ctype"] != "default":
+            h.set_header("Content-Type", cfg["ctype"])
+        if cfg["pre"] == "vary":
+            h.set_header("Vary", "Cookie")
+        elif cfg["pre"] == "ce":
+            h.set_header("Content-Encoding", "br")
+
+    real_ops = [(a, [list(unrle(args[0]))]) if a in ("write", "finish") else (a, args) for a, args in ops]
+    hdrs = [] if cfg["ae"] == "absent" else ["Accept-Encoding: " + cfg["ae"]]
+    c = {"method": "GET", "version": cfg["version"], "inm": "absent"}
+    ev, out, eof = run_program(c, real_ops, app_settings={"compress_response": True}, extra_headers=hdrs,
+                               prelude=prelude, write_plan=write_plan)
+    # put the run-length arguments back (the trace carries what the spec action takes)
+    k = 0
+    for e in ev:
+        if e["a"] in ("write", "finish", "flush"):
+            e["args"] = ops[k][1]
+            k += 1
+    gz = {"used": False, "ok": False, "enc": [], "dec": []}
+    try:
+        msgs = split_responses(out)           # transport plumbing: where is the body the stdlib should decode
+        if msgs and msgs[0][0] is not None and any(n.lower() == "content-encoding" and v.lower() == "gzip" for n, v in msgs[0][3]):
+            ok, dec = gunzip_strict(msgs[0][4])
+            gz = {"used": True, "ok": ok, "enc": list(msgs[0][4]), "dec": list(dec)}
+    except Exception:
+        pass
+    ev.append({"a": "response", "args": [], "obs": {"out": list(out), "eof": bool(eof), "gz": gz}})
+    return {"id": tid, "cfg": cfg, "ev": ev}
